@@ -23,6 +23,9 @@ def leaf_values(f, o, depth=0, seen=None):
         return out
     if i.op == "icmp" and rules.const_of(f, i["b"]) == 0 and i["pred"] == "ne":
         return leaf_values(f, i["a"], depth + 1, seen)
+    if i.op == "select" and rules.const_of(f, i["a"]) not in (None, 0) and rules.const_of(f, i["b"]) == 0:
+        # `cond ? 1 : 0`: true exactly when cond is
+        return leaf_values(f, i["cond"], depth + 1, seen)
     return [o]
 
 
@@ -164,15 +167,19 @@ def run(chk, w):
                             if ks_ and all(_under_flag(s_) for s_ in ks_):
                                 guard_ok = True
                                 continue
-                if not truth:
+                # `if (flag)`, `if (flag != 0)`, `if (!(flag == 0))`: the flag being non-zero
+                gcond, gtruth = gd["cond"], truth
+                if cnd_ is not None and cnd_.op == "icmp" and cnd_["pred"] in ("eq", "ne") and rules.const_of(disp, cnd_["b"]) == 0:
+                    gcond, gtruth = cnd_["a"], (truth == (cnd_["pred"] == "ne"))
+                if not gtruth:
                     continue
-                src = rules.load_source(disp, gd["cond"])
+                src = rules.load_source(disp, gcond)
                 if src is None or src[0] != "alloca":
                     continue
                 cell = src[1]
                 stores = [s for s in disp.all_insts() if s.op == "store" and s["ptr"].get("k") == "inst" and s["ptr"]["id"] == cell]
                 # reaching definition: the stores that dominate the guard's own load (each case assigns the flag itself)
-                gl = disp.resolve(rules.strip_casts(disp, gd["cond"]))
+                gl = disp.resolve(rules.strip_casts(disp, gcond))
                 while gl is not None and gl.op != "load":
                     gl = disp.resolve(rules.strip_casts(disp, gl["a"])) if "a" in gl.d else None
                 if gl is not None:
@@ -288,20 +295,41 @@ def _msg_offset(disp, a, D):
             return None
     if i.op != "getelementptr":
         return None
-    if ("param", D.mparam) not in dispatch._deep_param(disp, {"k": "inst", "id": i.id}):
+    return _ptr_offset(disp, {"k": "inst", "id": i.id}, D)
+
+
+def _ptr_offset(disp, o, D, depth=0):
+    """pointer operand is &message[data_index + k], possibly through a payload pointer kept in a local (`notice = &message[data_index]; notice[k]`): k"""
+    o = rules.resolve_local(disp, rules.strip_casts(disp, o))
+    i = disp.resolve(o)
+    if i is None or i.op != "getelementptr" or depth > 3:
         return None
     if not i["idx"]:
+        # constant subscript of a pointer that is itself inside the message
+        k0 = _ptr_offset(disp, i["base"], D, depth + 1)
+        return None if k0 is None else k0 + i["off"]
+    if ("param", D.mparam) not in dispatch._deep_param(disp, {"k": "inst", "id": i.id}):
+        return None
+    if len(i["idx"]) != 1 or i["idx"][0]["scale"] != 1:
+        return None
+    bi = disp.resolve(rules.resolve_local(disp, rules.strip_casts(disp, i["base"])))
+    k0 = 0
+    if bi is not None and bi.op == "getelementptr":
+        k0 = _ptr_offset(disp, {"k": "inst", "id": bi.id}, D, depth + 1)
+        if k0 is None:
+            return None
+        # payload pointer + variable subscript: only a constant subscript is a fixed byte of the report
         return None
     iv = disp.resolve(rules.strip_casts(disp, i["idx"][0]["v"]))
     if iv is None:
         return None
     if iv.op == "load":
-        return 0
+        return i["off"]
     if iv.op == "add":
         c = rules.const_of(disp, iv["b"])
         a0 = disp.resolve(rules.strip_casts(disp, iv["a"]))
         if c is not None and a0 is not None and a0.op == "load":
-            return c
+            return c + i["off"]
     return None
 
 
